@@ -14,6 +14,8 @@ import itertools
 import json
 import os
 import random
+import re
+import warnings
 import shutil
 import struct
 import sys
@@ -107,7 +109,7 @@ class Factory:
         if key in self.cache:
             return self.cache[key]
         self.n += 1
-        named = [('/'.join(c), cid.encode('utf-8')) for c, cid in files]
+        named = [('/'.join(c), tagged(cid)) for c, cid in files]
         if backend == 'virtual':
             # variant: contents given as text instead of bytes
             fs = VirtualFileSystem({n: (d.decode('utf-8') if footer else d) for n, d in named})
@@ -123,7 +125,7 @@ class Factory:
         elif backend == 'vpk':
             path = os.path.join(self.dir, f'p{self.n}.vpk')
             with open(path, 'wb') as f:
-                f.write(encode_vpk([(c, cid.encode('ascii')) for c, cid in files], footer))
+                f.write(encode_vpk([(c, tagged(cid)) for c, cid in files], footer))
             fs = VPKFileSystem(path)
         elif backend == 'raw':
             root = os.path.join(self.dir, f'r{self.n}')
@@ -162,9 +164,92 @@ def exc_name(fn):
         return None, type(exc).__name__
 
 
+def tagged(cid: str) -> bytes:
+    """File content: one KV1 keyvalue carrying the content id, so that every reader - bytes, text,
+    read_kv1 - can say which file it got."""
+    assert '"' not in cid and BS not in cid, cid
+    return f'"tag" "{cid}"\n'.encode('utf-8')
+
+
+_TAG = re.compile(r'"tag" "([^"]*)"\s*')
+
+
+def untag(text) -> str:
+    if isinstance(text, (bytes, bytearray, memoryview)):
+        text = bytes(text).decode('utf-8', 'replace')
+    m = _TAG.fullmatch(text)
+    return m.group(1) if m else '?' + text[:40]
+
+
 def read_bin(f) -> str:
     with f:
-        return f.read().decode('utf-8', 'replace')
+        return untag(f.read())
+
+
+def kv_tag(kv) -> str:
+    vals = [c.value for c in kv if c.name == 'tag' and not c.has_children()]
+    return vals[0] if len(vals) == 1 else '?kv' + repr(vals)[:40]
+
+
+# Every public way of getting content.  NAME_PROBES take a name, HANDLE_PROBES a File handle (from a
+# look-up, a walk, a repeating walk or iteration).  'cache_key' returns no content: it is only
+# required not to fail for a handle of an existing file (its value is not part of the property).
+NAME_PROBES = [
+    ('fs[n].open_bin()', lambda fs, n: read_bin(fs[n].open_bin())),
+    ('fs[n].open_str()', lambda fs, n: read_bin(fs[n].open_str())),
+    ('fs.open_bin(n)', lambda fs, n: read_bin(fs.open_bin(n))),
+    ('fs.open_str(n)', lambda fs, n: read_bin(fs.open_str(n))),
+    ('fs.read_kv1(n)', lambda fs, n: kv_tag(fs.read_kv1(n))),
+    ('fs.read_prop(n)', lambda fs, n: kv_tag(fs.read_prop(n))),
+]
+HANDLE_PROBES = [
+    ('File.open_bin()', lambda fs, f: read_bin(f.open_bin())),
+    ('File.open_str()', lambda fs, f: read_bin(f.open_str())),
+    ('fs.open_bin(File)', lambda fs, f: read_bin(fs.open_bin(f))),
+    ('fs.open_str(File)', lambda fs, f: read_bin(fs.open_str(f))),
+    ('fs.read_kv1(File)', lambda fs, f: kv_tag(fs.read_kv1(f))),
+    ('fs.read_prop(File)', lambda fs, f: kv_tag(fs.read_prop(f))),
+    ('File.cache_key()', lambda fs, f: (f.cache_key(), read_bin(f.open_bin()))[1]),
+]
+# public callables of the filesystem classes and of File, and the probe (or record field) that covers
+# each; one that takes a name / file / folder and is not listed here is a machinery failure
+COVERED = {
+    'open_bin': 'NAME_PROBES/HANDLE_PROBES', 'open_str': 'NAME_PROBES/HANDLE_PROBES', 'read_kv1': 'NAME_PROBES/HANDLE_PROBES',
+    'read_prop': 'NAME_PROBES/HANDLE_PROBES', 'walk_folder': 'walks', 'walk_folder_repeat': 'walks[].rep',
+    'get_system': 'lookups[].owner', 'cache_key': 'HANDLE_PROBES', 'add_sys': 'act',
+}
+NO_NAME_ARG = {'open_ref', 'close_ref'}
+
+
+def require_probe_coverage() -> None:
+    import inspect
+    from srctools.filesys import File
+    for cls in (FileSystem, FileSystemChain, RawFileSystem, VirtualFileSystem, VPKFileSystem, ZipFileSystem, File):
+        for name in dir(cls):
+            attr = getattr(cls, name)
+            if name.startswith('_') or not callable(attr) or name in COVERED or name in NO_NAME_ARG:
+                continue
+            try:
+                params = list(inspect.signature(attr).parameters)
+            except (TypeError, ValueError):
+                params = ['?']
+            if any(p in ('name', 'path', 'file', 'folder', 'item', 'filename', '?') for p in params):
+                sys.stderr.write(f'MACHINERY: public method {cls.__name__}.{name}({", ".join(params)}) has no probe\n')
+                sys.exit(2)
+
+
+def run_probes(probes, fs, arg) -> tuple:
+    """-> (contents, exception type names); collapsed to one entry when all probes agree."""
+    pc, pe = [], []
+    with warnings.catch_warnings():
+        warnings.simplefilter('ignore')
+        for _, fn in probes:
+            c, e = exc_name(lambda: fn(fs, arg))
+            pc.append(c or '')
+            pe.append(e)
+    if len(set(zip(pc, pe))) == 1:
+        return pc[:1], pe[:1]
+    return pc, pe
 
 
 def tok_str(toks: list) -> str:
@@ -174,11 +259,18 @@ def tok_str(toks: list) -> str:
 def do_lookup(fs, toks: list) -> dict:
     name = tok_str(toks)
     has, hase = exc_name(lambda: name in fs)
-    c, ce = exc_name(lambda: read_bin(fs[name].open_bin()))
-    cb, cbe = exc_name(lambda: read_bin(fs.open_bin(name)))
-    cs, cse = exc_name(lambda: fs.open_str(name).read())
-    return {'toks': toks, 'has': bool(has), 'hase': hase, 'c': c or '', 'ce': ce, 'cb': cb or '', 'cbe': cbe,
-            'cs': cs or '', 'cse': cse}
+    pc, pe = run_probes(NAME_PROBES, fs, name)
+    f, fe = exc_name(lambda: fs[name])
+    hc, he = run_probes(HANDLE_PROBES, fs, f) if f is not None else ([], [])
+    return {'toks': toks, 'has': bool(has), 'hase': hase, 'pc': pc, 'pe': pe, 'hc': hc, 'he': he}
+
+
+def item_of(fs, f) -> dict:
+    """One walked handle: its name, what every way of reading through the handle yields, and what a
+    look-up of the listed name yields."""
+    hc, he = run_probes(HANDLE_PROBES, fs, f)
+    lk, le = exc_name(lambda: read_bin(fs[f.path].open_bin()))
+    return {'n': f.path.replace(BS, '/').split('/'), 'c': hc[0], 'ce': he[0], 'hc': hc, 'he': he, 'l': lk or '', 'le': le}
 
 
 def do_walk(fs, toks: list, via_iter: bool = False) -> dict:
@@ -186,9 +278,7 @@ def do_walk(fs, toks: list, via_iter: bool = False) -> dict:
     items = []
     try:
         for f in (iter(fs) if via_iter else fs.walk_folder(arg)):
-            c, ce = exc_name(lambda: read_bin(f.open_bin()))
-            lk, le = exc_name(lambda: read_bin(fs[f.path].open_bin()))
-            items.append({'n': f.path.replace(BS, '/').split('/'), 'c': c or '', 'ce': ce, 'l': lk or '', 'le': le})
+            items.append(item_of(fs, f))
         e = ''
     except Exception as exc:
         e = type(exc).__name__
@@ -388,10 +478,11 @@ def chain_record(fac: Factory, pre: list, act: dict, lookups: list, folders: lis
         owner, _ = exc_name(lambda: pos[next(k for k, sp in spies.items() if sp.inner is FileSystemChain.get_system(chain[name]))])
         log.clear()
         has, hase = exc_name(lambda: name in chain)
+        pc, pe = run_probes(NAME_PROBES, chain, name)
+        f, fe = exc_name(lambda: chain[name])
+        hc, he = run_probes(HANDLE_PROBES, chain, f) if f is not None else ([], [])
         log.clear()
-        cb, cbe = exc_name(lambda: read_bin(chain.open_bin(name)))
-        log.clear()
-        lks.append({'toks': toks, 'has': bool(has), 'hase': hase, 'c': c or '', 'ce': ce, 'cb': cb or '', 'cbe': cbe,
+        lks.append({'toks': toks, 'has': bool(has), 'hase': hase, 'pc': pc, 'pe': pe, 'hc': hc, 'he': he,
                     'calls': cl, 'owner': owner or 0})
     wks = []
     def one_walk(toks, start):
@@ -401,12 +492,10 @@ def chain_record(fac: Factory, pre: list, act: dict, lookups: list, folders: lis
             listed = list(start())
             cl = calls('walk')
             for f in listed:
-                c, ce = exc_name(lambda: read_bin(f.open_bin()))
-                lk, le = exc_name(lambda: read_bin(chain[f.path].open_bin()))
-                items.append({'n': f.path.replace(BS, '/').split('/'), 'c': c or '', 'ce': ce, 'l': lk or '', 'le': le})
+                items.append(item_of(chain, f))
             # the same walk without de-duplication
             log.clear()
-            rep = [{'n': f.path.replace(BS, '/').split('/'), 'c': read_bin(f.open_bin())} for f in chain.walk_folder_repeat(tok_str(toks))]
+            rep = [item_of(chain, f) for f in chain.walk_folder_repeat(tok_str(toks))]
         except Exception as exc:
             e = type(exc).__name__
             cl = calls('walk')
@@ -538,6 +627,7 @@ def random_tier(out: hlib.RecWriter, fac: Factory, rng: random.Random, n_fs: int
 
 
 def main() -> None:
+    require_probe_coverage()
     mode = sys.argv[1]
     stats: dict = {}
     fac = Factory()
